@@ -5,6 +5,20 @@ HERE = os.path.dirname(os.path.dirname(os.path.abspath(__file__)))
 ids = [json.loads(l)["id"] for l in open(os.path.join(HERE, "properties.jsonl"))]
 
 CLAIMS = {
+ "C17": dict(
+   text="Statistics reassembly (Connection._incoming_stats_reply) is proved as one step over stored parts of ANY number "
+        "(symbolic list + representation invariant re-established by every step): a continuing part is appended in order, a "
+        "part of another request never merges with stored ones, the last part fires exactly one handler call with all parts "
+        "of its request in order and empties the store; the six per-type handlers hand the concatenated entries, in order, to "
+        "one nexus event and - unless halted - one connection event. The port view is proved per operation against an "
+        "abstract view (own ports ++ unmasked, unsuperseded original ports) for arbitrary states with symbolic port numbers, "
+        "names and addresses: _update/_forget and the PORT_STATUS / FEATURES_REPLY handlers apply exactly the notification, "
+        "original ports stay untouched, lookup by number / name / address, membership, get, keys, len, iteration, values and "
+        "items agree with the view.",
+   note="port collections hold at most 2 own, 2 original ports and 2 masks (reported as bounded symbolic units; the history "
+        "statement is the induction over the per-operation contracts); stats handlers bounded to 3 parts x 2 entries; "
+        "replies of types without a handler (vendor) and PortCollection.copy are outside the contracts.",
+   ref="7/C17"),
  "C05": dict(
    text="The real addListener / removeListener / raiseEvent / raiseEventNoErrors / CallProxy are proved against an abstract "
         "view (per event type the sequence of (priority, handler, once, id)) for handler lists of 0..3 entries with symbolic "
